@@ -200,9 +200,17 @@ type FaultReader struct {
 	At       int
 	WithData bool
 	Pieces   []int
-	Once     bool // fail a single Read at offset At, then carry on delivering
+	Once     bool  // fail a single Read at offset At, then carry on delivering
+	Err      error // the error to fail with (ErrInjected when nil)
 	pos, pi  int
 	Hit      bool
+}
+
+func (r *FaultReader) fault() error {
+	if r.Err != nil {
+		return r.Err
+	}
+	return ErrInjected
 }
 
 func (r *FaultReader) Read(p []byte) (int, error) {
@@ -211,7 +219,7 @@ func (r *FaultReader) Read(p []byte) (int, error) {
 	}
 	if r.pos >= r.At && !(r.Once && r.Hit) {
 		r.Hit = true
-		return 0, ErrInjected
+		return 0, r.fault()
 	}
 	if r.pos >= len(r.Data) {
 		return 0, io.EOF
@@ -238,7 +246,7 @@ func (r *FaultReader) Read(p []byte) (int, error) {
 	r.pos += n
 	if r.WithData && r.pos == r.At && !(r.Once && r.Hit) {
 		r.Hit = true
-		return n, ErrInjected
+		return n, r.fault()
 	}
 	return n, nil
 }
